@@ -2,7 +2,7 @@
 # extract.sh <out.json> [repo_dir] : run the skamir driver over the ska crate
 # (lib target) of repo_dir (default /repo) and write the fact file.
 set -e
-OUT="$1"; REPO="${2:-/repo}"
+OUT="$(realpath -m "$1")"; REPO="${2:-/repo}"
 V=/verif
 DRV=$V/driver/target/release/skamir
 if [ ! -x "$DRV" ]; then (cd $V/driver && CARGO_NET_OFFLINE=true cargo build --release --offline >&2); fi
